@@ -712,8 +712,8 @@ func definitelyNonNilErr(v ssa.Value) bool {
 		}
 	case *ssa.UnOp:
 		if x.Op == token.MUL {
-			if g, ok := x.X.(*ssa.Global); ok && strings.HasPrefix(g.Name(), "Err") {
-				return true
+			if g, ok := x.X.(*ssa.Global); ok && strings.HasPrefix(strings.ToLower(g.Name()), "err") && isErrorType(deref(g.Type())) {
+				return true // a sentinel error variable (ErrX / errX), initialised once with errors.New / fmt.Errorf
 			}
 		}
 	case *ssa.MakeInterface:
